@@ -621,6 +621,9 @@ func (*Thread).CallGeneratorNext
   guard addr < 0 || (sbase(vm) <= addr && addr < sbase(vm) + 24 * len(vm.stack)) || (sliceptr(generator.stack) <= addr && addr < sliceptr(generator.stack) + 24 * len(generator.stack))
   requires vm != nil && wfStack(vm) && generator != nil && generator.Bytecode != nil && len(generator.stack) >= 1
   requires room: soff(vm) + len(generator.stack) <= len(vm.stack) - 1
+  // a run that ended in an error (the end of iteration included) parks the generator on the
+  // STOP_ITERATION; LOOP pair that closes its bytecode: every later call signals the end again
+  ensures parked: ret1 != value.Undefined ==> generator.ip == wrapU64(sliceptr(generator.Bytecode.Instructions) + len(generator.Bytecode.Instructions) - 4)
   assert before restoreLastFrame#1: soff(vm) - 1 >= foff(vm) ==> len(generator.stack) == soff(vm) - 1 - foff(vm) && freshSlice(generator.stack) && (forall k int :: 0 <= k && k < len(generator.stack) ==> elem(generator.stack, k) == slot(vm, foff(vm) + k))
   assert before restoreLastFrame#2: soff(vm) - 1 >= foff(vm) ==> len(generator.stack) == soff(vm) - 1 - foff(vm) && freshSlice(generator.stack) && generator.ip == vm.ip && (forall k int :: 0 <= k && k < len(generator.stack) ==> elem(generator.stack, k) == slot(vm, foff(vm) + k))
   loop 1
